@@ -22,9 +22,11 @@ import (
 
 var fset = token.NewFileSet()
 
+// a unit of generated output that cannot be produced from the current source
+type unitFailure struct{ msg string }
+
 func die(format string, a ...interface{}) {
-	fmt.Fprintf(os.Stderr, "extract: "+format+"\n", a...)
-	os.Exit(2)
+	panic(unitFailure{fmt.Sprintf(format, a...)})
 }
 
 func parseFile(path string) *ast.File {
@@ -902,14 +904,37 @@ func write(path, content string) {
 
 func main() {
 	if len(os.Args) != 3 {
-		die("usage: extract <repo> <out-dir>")
+		fmt.Fprintln(os.Stderr, "usage: extract <repo> <out-dir>")
+		os.Exit(2)
 	}
 	repo, out := os.Args[1], os.Args[2]
 	os.MkdirAll(out, 0755)
 	for _, f := range []string{"Facts.lean", "RangeGo.lean", "ClampGo.lean"} {
 		os.Remove(filepath.Join(out, f))
 	}
-	genFacts(repo, out)
-	genRange(repo, out)
-	genClamp(repo, out)
+	// each unit is generated on its own: a source change the translator does not understand costs
+	// that unit only (the caller restores the committed file and knows which properties depend on it)
+	failed := 0
+	for _, u := range []struct {
+		name string
+		gen  func(string, string)
+	}{{"Facts", genFacts}, {"RangeGo", genRange}, {"ClampGo", genClamp}} {
+		func() {
+			defer func() {
+				if p := recover(); p != nil {
+					if uf, ok := p.(unitFailure); ok {
+						fmt.Printf("UNIT-FAILED %s: %s\n", u.name, uf.msg)
+						os.Remove(filepath.Join(out, u.name+".lean"))
+						failed++
+						return
+					}
+					panic(p)
+				}
+			}()
+			u.gen(repo, out)
+		}()
+	}
+	if failed > 0 {
+		os.Exit(4)
+	}
 }
